@@ -321,6 +321,7 @@ impl Report {
         if self.violations.iter().any(|v| v.signature == f.sig) {
             return;
         }
+        VIOLATIONS_SEEN.fetch_add(1, std::sync::atomic::Ordering::Relaxed);
         self.violations.push(Violation {
             property: ctx.id.clone(),
             kind: kind.to_string(),
@@ -448,6 +449,16 @@ pub fn par_shards(n: usize, stack: usize, work: impl Fn(usize) -> Report + Sync)
 
 pub const DEFAULT_STACK: usize = 16 << 20;
 
+/// Number of violations recorded so far in this process. Once a handful are known the
+/// remaining enumerated cases are skipped: under a broken tree every further failing case can
+/// cost a watchdog timeout, and the run already has what it needs to report.
+pub static VIOLATIONS_SEEN: std::sync::atomic::AtomicUsize = std::sync::atomic::AtomicUsize::new(0);
+pub const FAIL_FAST_AFTER: usize = 6;
+
+pub fn enough_violations() -> bool {
+    VIOLATIONS_SEEN.load(std::sync::atomic::Ordering::Relaxed) >= FAIL_FAST_AFTER
+}
+
 fn seed_bytes(seed: u64, label: &str, shard: usize) -> [u8; 32] {
     let mut b = [0u8; 32];
     let h1 = hash_of(&(seed, label, shard as u64, 1u8));
@@ -474,6 +485,9 @@ pub fn run_random<C>(
 where
     C: Serialize + DeserializeOwned + std::fmt::Debug,
 {
+    if enough_violations() {
+        return Report::default();
+    }
     let shards = ctx.threads.max(1).min(cases.max(1) as usize);
     let per = cases.div_ceil(shards as u64);
     par_shards(shards, ctx.stack, |shard| {
@@ -559,6 +573,10 @@ where
         let mut report = Report::default();
         let mut i = shard;
         while i < cases.len() {
+            if enough_violations() {
+                report.notes.push(format!("{}: stopped early after {} violations ({} of {} cases evaluated in this shard)", kind, FAIL_FAST_AFTER, i / shards, cases.len() / shards));
+                break;
+            }
             let case = &cases[i];
             crate::crumb::case(kind, case);
             let out = check(case);
